@@ -143,6 +143,9 @@ def worker_main(args) -> int:
     if args.shard % 4 == 3 and not getattr(mod, "NO_POSTPONED", False):
         os.environ["VERIF_POSTPONED"] = "1"  # core universe declared with `from __future__ import annotations`
         conf.append("postponed-annotations")
+    if args.shard % 8 in (4, 7):
+        os.environ["VERIF_EARLY_INTROSPECT"] = "1"  # every universe class is asked for its fields right after its class statement
+        conf.append("early-introspection")
     if args.shard % 2 == 1:
         import logging
 
